@@ -22,11 +22,11 @@ package theine
 
 import (
 	"bytes"
-	"os"
-	"runtime/pprof"
 	"context"
 	"fmt"
+	"os"
 	"runtime"
+	"runtime/pprof"
 	"strings"
 	"testing"
 	"time"
